@@ -363,23 +363,56 @@ def roundtrip_strength(ctx, nph=2, N=2, compressed=True):
     ctx.prove("solid solution strength restored", same_arr(ctx, s2.solidStrength, s.solidStrength))
 
 
-def roundtrip_psdrec(ctx, K=2, maxb=3, compressed=True):
-    """PopulationBalanceModel.saveRecordedPSD -> loadRecordedPSD restores the recorded size-distribution history"""
-    a = PBM(1e-10, 1e-9, 2, 1, maxb)
-    a.enableRecording()
-    a._recordedTime = ctx.reals("rt", K, (0.0, 10.0))
-    a._recordedBins = ctx.reals("rb", (K, maxb + 1), (0.0, 2.0))
-    a._recordedPSD = ctx.reals("rp", (K, maxb), (0.0, 5.0))
-    b = PBM(1e-10, 1e-9, 2, 1, maxb)
+def _fill_psdrec(ctx, pbm, K, maxb, tag=""):
+    pbm.enableRecording()
+    pbm._recordedTime = ctx.reals(tag + "rt", K, (0.0, 10.0))
+    pbm._recordedBins = ctx.reals(tag + "rb", (K, maxb + 1), (0.0, 2.0))
+    pbm._recordedPSD = ctx.reals(tag + "rp", (K, maxb), (0.0, 5.0))
+
+
+def _check_psdrec(ctx, b, a, tag=""):
+    obs(ctx, tag + "rp", b._recordedPSD)
+    ctx.prove(tag + "recorded times restored", same_arr(ctx, b._recordedTime, a._recordedTime))
+    ctx.prove(tag + "recorded class boundaries restored", same_arr(ctx, b._recordedBins, a._recordedBins))
+    ctx.prove(tag + "recorded distributions restored", same_arr(ctx, b._recordedPSD, a._recordedPSD))
+    ctx.prove(tag + "recording switched on by loading", b._record is True)
+
+
+def roundtrip_psdrec(ctx, K=2, maxb=3, compressed=True, fname="psd.npz", model=None):
+    """PopulationBalanceModel.saveRecordedPSD -> loadRecordedPSD under the SAME file name (with the .npz extension,
+    without it, with dots inside) restores the recorded size-distribution history; likewise for the files written by
+    PrecipitateModel.saveRecordedPSD(filename, phase=...) (one per phase, '<filename>_<phase>', or the named phase)"""
+    if model is None:
+        a = PBM(1e-10, 1e-9, 2, 1, maxb)
+        _fill_psdrec(ctx, a, K, maxb)
+        b = PBM(1e-10, 1e-9, 2, 1, maxb)
+        with file_layer(ctx, [_mod_pbm]) as path_of:
+            fn = path_of(fname)
+            a.saveRecordedPSD(fn, compressed)
+            b.loadRecordedPSD(fn)
+        _check_psdrec(ctx, b, a)
+        return
+    phases = _PH[:2]
+    m = PrecipitateModel(phases=list(phases), elements=["CR"])
+    for p in range(2):
+        m.PBM[p] = PBM(1e-10, 1e-9, 2, 1, maxb)
+        _fill_psdrec(ctx, m.PBM[p], K + p, maxb, tag="%s_" % phases[p])
     with file_layer(ctx, [_mod_pbm]) as path_of:
-        fn = path_of("psd.npz")
-        a.saveRecordedPSD(fn, compressed)
-        b.loadRecordedPSD(fn)
-    obs(ctx, "rp", b._recordedPSD)
-    ctx.prove("recorded times restored", same_arr(ctx, b._recordedTime, a._recordedTime))
-    ctx.prove("recorded class boundaries restored", same_arr(ctx, b._recordedBins, a._recordedBins))
-    ctx.prove("recorded distributions restored", same_arr(ctx, b._recordedPSD, a._recordedPSD))
-    ctx.prove("recording switched on by loading", b._record is True)
+        fn = path_of(fname)
+        if model == "all":
+            m.saveRecordedPSD(fn, compressed)
+            todo = [(p, fn + "_" + phases[p]) for p in range(2)]
+        else:
+            p = phases.index(model)
+            m.saveRecordedPSD(fn, compressed, phase=model)
+            todo = [(p, fn)]
+        loaded = []
+        for p, name in todo:
+            b = PBM(1e-10, 1e-9, 2, 1, maxb)
+            b.loadRecordedPSD(name)
+            loaded.append((p, b))
+    for p, b in loaded:
+        _check_psdrec(ctx, b, m.PBM[p], tag="%s: " % phases[p])
 
 
 # ----------------------------------------------------------------------------------------------------------------------
@@ -1161,10 +1194,15 @@ HARNESSES = [
             stubs=_S_FILE, bounds={"phases": "nph", "history length": "N"},
             params={"quick": [{"nph": 2, "N": 2, "compressed": True}, {"nph": 1, "N": 3, "compressed": False}],
                     "thorough": [{"nph": p, "N": n, "compressed": c} for p in (1, 2, 3) for n in (1, 4) for c in (True, False)]}),
-    Harness("C20.roundtrip_psdrec", roundtrip_psdrec, functions=_F_RT, assumptions=["recording enabled"], stubs=_S_FILE,
-            bounds={"recorded frames": "K", "max classes": "maxb"},
-            params={"quick": [{"K": 2, "maxb": 3, "compressed": True}, {"K": 1, "maxb": 2, "compressed": False}],
-                    "thorough": [{"K": k, "maxb": b, "compressed": c} for k in (1, 4) for b in (2, 5) for c in (True, False)]}),
+    Harness("C20.roundtrip_psdrec", roundtrip_psdrec, functions=_F_RT + [PrecipitateModel.saveRecordedPSD], assumptions=["recording enabled"], stubs=_S_FILE,
+            bounds={"recorded frames": "K", "max classes": "maxb", "phases (model level)": 2},
+            params={"quick": [{"K": 2, "maxb": 3, "compressed": True, "fname": "psd.npz"}, {"K": 1, "maxb": 2, "compressed": False, "fname": "psd.npz"},
+                              {"K": 2, "maxb": 2, "compressed": True, "fname": "psd"}, {"K": 1, "maxb": 2, "compressed": False, "fname": "psd_t0.5"},
+                              {"K": 1, "maxb": 2, "compressed": True, "fname": "rec", "model": "all"},
+                              {"K": 1, "maxb": 2, "compressed": False, "fname": "rec.npz", "model": "BETA_2"},
+                              {"K": 1, "maxb": 2, "compressed": True, "fname": "rec_t0.5", "model": "BETA"}],
+                    "thorough": [{"K": k, "maxb": b, "compressed": c, "fname": f} for k in (1, 4) for b in (2, 5) for c in (True, False) for f in ("psd.npz", "psd", "psd_t0.5", "a.b.c")] +
+                                [{"K": 2, "maxb": 3, "compressed": c, "fname": f, "model": mo} for c in (True, False) for f in ("rec", "rec.npz", "rec_t0.5") for mo in ("all", "BETA", "BETA_2")]}),
     Harness("C20.passthrough", passthrough, functions=_F_PT, stubs=_S_THERM + ["trained models of other phases/quantities: objects whose predict raises"],
             assumptions=["phase passed positionally or by keyword, options by keyword (the call forms kawin's own models use)"],
             bounds={"components": "ne (2 binary, 3 ternary)", "state points per call": "npts", "phases": 3},
